@@ -4,7 +4,7 @@ CONSTANTS
   OvChoices <- OvTwo
   DfChoices <- DfTiny
   SpChoices <- SpNone
-  BoundVals = {24}
+  BoundVals = {0}
   MaxFuncs = 3
   MaxParams = 1
   MaxTotal = 3
